@@ -597,8 +597,9 @@ class Ghost:
         if name == "rename" and fs.kind(st[2]) == "file":
             if self.clean_rename(st, dur):
                 self.pren.append((fs.lookup(st[2])[1], st[2], st[3]))
-            self.gone.add(st[2])
-            self.rtargets.add(st[3])
+            if self.rename_ok(fs, st[2], st[3]):
+                self.gone.add(st[2])
+                self.rtargets.add(st[3])
         if name == "unlink" and fs.kind(st[2]) == "file":
             self.gone.add(st[2])
         if name in ("rmdir", "rmdir_all") and fs.kind(st[2]) == "dir":
